@@ -1342,6 +1342,16 @@ func checkLoadedTreeIsParsed(w *World, r *Report) {
 			case *ssa.MakeInterface:
 				walk(x.X, d+1)
 				return
+			case *ssa.Call:
+				// a helper with one result (decodeCompiledAST): what it returns
+				if g := x.Call.StaticCallee(); g != nil && w.inPkg(g) && len(g.Blocks) > 0 && g.Signature.Results().Len() == 1 && calleeFunc(x) != parse {
+					instrsOf(g, func(gi ssa.Instruction) {
+						if ret, ok := gi.(*ssa.Return); ok {
+							walk(retResults(ret)[0], d+1)
+						}
+					})
+					return
+				}
 			}
 			bad = describe(v)
 		}
